@@ -23,7 +23,7 @@ package cfevesting
 //@   // (VestingPool.Validate reads the three amounts of every pool: none is nil in a validated genesis)
 //@   requires genesisPoolsWellFormed(genState.AccountVestingPools)
 //@   modifies $kvHas, $kvVal, $pFound, $pGenesis, $pIL, $pLen, $pLockEnd, $pLockStart, $pName, $pS, $pType, $pW
-//@   modifies $trFound, $trGenesis, $trFromGenesisPool, $trFromGenesisAccount, $vtFound, $vtFree, $vtLockup, $vtVesting
+//@   modifies $trFound, $trGenesis, $trFromGenesisPool, $trFromGenesisAccount, $trId, $trCount, $vtFound, $vtFree, $vtLockup, $vtVesting
 //@   ensures [vesting-types] forall i: int :: {genState.VestingTypes[i].Name} 0 <= i && i < len(genState.VestingTypes) ==>
 //@     $vtFound[genState.VestingTypes[i].Name]
 //@     && $vtLockup[genState.VestingTypes[i].Name] == unitNs(genState.VestingTypes[i].LockupPeriodUnit) * genState.VestingTypes[i].LockupPeriod
@@ -33,7 +33,14 @@ package cfevesting
 //@   ensures [pools] forall i: int :: {genState.AccountVestingPools[i]} 0 <= i && i < len(genState.AccountVestingPools) ==> poolsStored(genState.AccountVestingPools[i])
 //@   // every lineage record of the genesis is stored
 //@   ensures [traces] forall i: int :: {genState.VestingAccountTraces[i].Address} 0 <= i && i < len(genState.VestingAccountTraces) ==> $trFound[genState.VestingAccountTraces[i].Address]
+//@   // ... with the id and the lineage flags it carries (records of distinct addresses; a later record of the same address would
+//@   // overwrite an earlier one), and the id counter is the exported one
+//@   ensures [trace-ids] tracesDistinct(genState.VestingAccountTraces) ==> (forall i: int :: {genState.VestingAccountTraces[i].Address} 0 <= i && i < len(genState.VestingAccountTraces) ==> traceStored(genState.VestingAccountTraces[i]))
+//@   ensures [trace-count] $trCount == genState.VestingAccountTraceCount
 //@   prop C12 C05
+//@ pred tracesDistinct(ts) = forall i: int, j: int :: {ts[i].Address, ts[j].Address} 0 <= i && i < j && j < len(ts) ==> ts[i].Address != ts[j].Address
+//@ pred traceStored(t) = $trFound[t.Address] && $trId[t.Address] == t.Id && $trGenesis[t.Address] == t.Genesis
+//@   && $trFromGenesisPool[t.Address] == t.FromGenesisPool && $trFromGenesisAccount[t.Address] == t.FromGenesisAccount
 //@ pred poolsStored(av) = $pFound[av.Owner] && $pLen[av.Owner] == len(av.VestingPools)
 //@   && (forall m: int :: {av.VestingPools[m]} 0 <= m && m < len(av.VestingPools) ==> poolFieldsEq(av.VestingPools[m], av.Owner, m))
 //@ pred poolFieldsEq(p, o, i) = p.Name == $pName[o][i] && p.VestingType == $pType[o][i] && p.LockStart == $pLockStart[o][i]
@@ -41,6 +48,7 @@ package cfevesting
 //@ loop InitGenesis#1
 //@   invariant 0 <= \i && \i <= len(genState.VestingAccountTraces)
 //@   invariant forall j: int :: {genState.VestingAccountTraces[j].Address} 0 <= j && j < \i ==> $trFound[genState.VestingAccountTraces[j].Address]
+//@   invariant tracesDistinct(genState.VestingAccountTraces) ==> (forall j: int :: {genState.VestingAccountTraces[j].Address} 0 <= j && j < \i ==> traceStored(genState.VestingAccountTraces[j]))
 //@ loop InitGenesis#3
 //@   invariant 0 <= \i && \i <= len(genState.AccountVestingPools)
 //@   invariant forall j: int :: {genState.AccountVestingPools[j]} 0 <= j && j < \i ==> poolsStored(genState.AccountVestingPools[j])
@@ -65,7 +73,9 @@ package cfevesting
 //@   ensures [traces] len(genesis.VestingAccountTraces) == $trListN
 //@     && (forall i: int :: {genesis.VestingAccountTraces[i].Address} 0 <= i && i < $trListN ==> genesis.VestingAccountTraces[i].Address == $trList[i]
 //@        && genesis.VestingAccountTraces[i].Genesis == $trGenesis[$trList[i]] && genesis.VestingAccountTraces[i].FromGenesisPool == $trFromGenesisPool[$trList[i]]
-//@        && genesis.VestingAccountTraces[i].FromGenesisAccount == $trFromGenesisAccount[$trList[i]])
+//@        && genesis.VestingAccountTraces[i].FromGenesisAccount == $trFromGenesisAccount[$trList[i]]
+//@        && genesis.VestingAccountTraces[i].Id == $trId[$trList[i]])
+//@   ensures [trace-count] genesis.VestingAccountTraceCount == $trCount
 //@   prop C12
 //@ loop ExportGenesis#1
 //@   invariant 0 <= i && i <= len(allAccountVestingPools) && genesis != nil && genesis.Params.Denom == $vestingDenom && exportedTypesOK(genesis)
